@@ -322,9 +322,12 @@ __CPROVER_ensures(NV_R.m_u.ver == NV_NANVEC(0) && NV_R.m_iters == 0 && nv_n_solv
   && nv_grp.lin == (prog)->m_G.ver && nv_grp.off == (prog)->m_h.ver)
 #define NV_IS_STATUS(x) ((x) == NVE_solver_status_max_iters || (x) == NVE_solver_status_converged || (x) == NVE_solver_status_failed \
   || (x) == NVE_solver_status_unfeasible || (x) == NVE_solver_status_unbounded)
-#define NV_CONTRACT_solve_with_inequality \
+/* The contract is proved in two targets over the same extracted body (they run in parallel): the STATUS protocol
+ * (solve_with_inequality) and the ADVANCE protocol (solve_with_inequality_adv); each has the loop invariants it needs. */
+#define NV_SWI_REQUIRES_ASSIGNS \
 __CPROVER_requires(NV_FRESH(self) && NV_FRESH(program) && NV_FRESH(x0) && NV_FRESH(logger) && NV_PARAMS_OK && nv_n_solve < 1000000 && nv_n_update < 1000000) \
-__CPROVER_assigns(program->buf, nv_strict, nv_grp, nv_n_solve, nv_n_update) \
+__CPROVER_assigns(program->buf, nv_strict, nv_grp, nv_n_solve, nv_n_update)
+#define NV_CONTRACT_solve_with_inequality NV_SWI_REQUIRES_ASSIGNS \
 __CPROVER_ensures(NV_IS_STATUS(NV_R.m_status) && 0 <= NV_R.m_iters && NV_R.m_iters <= nv_p_max_iters) \
 __CPROVER_ensures(NV_START_INFEASIBLE \
   /* an x0 that is not strictly feasible is refused: unfeasible, and no iteration (no linear solve, no residual update) */ \
@@ -336,13 +339,13 @@ __CPROVER_ensures(NV_START_INFEASIBLE \
   : (((NV_R.m_status == NVE_solver_status_max_iters) == (NV_R.m_iters == nv_p_max_iters)) \
      && (NV_R.m_status == NVE_solver_status_failed ==> (!NV_FINITE(NV_R.m_eta) || !NV_FINITE(NV_NORM2(NV_R.m_rdual.ver)) || !NV_FINITE(NV_NORM2(NV_R.m_rprim.ver)))) \
      && ((NV_R.m_status == NVE_solver_status_converged || NV_R.m_status == NVE_solver_status_unbounded || NV_R.m_status == NVE_solver_status_unfeasible) \
-         ==> NV_R.m_status == NV_DONE_STATUS(NV_FEAS_ABS(program, NV_R.m_x.ver), NV_NOT_ABOVE(NV_R, nv_p_epsilon))))) \
-/* the returned point is x0 or was reached by advances that each passed the strict-feasibility test */ \
-__CPROVER_ensures(NV_R.m_x.ver == x0->ver || NV_ADVANCED(NV_R, program))
+         ==> NV_R.m_status == NV_DONE_STATUS(NV_FEAS_ABS(program, NV_R.m_x.ver), NV_NOT_ABOVE(NV_R, nv_p_epsilon)))))
+#define NV_SWI_LOOP3_FRAME \
+__CPROVER_loop_invariant(state.m_x.ver == __CPROVER_loop_entry(state.m_x.ver) && state.m_u.ver == __CPROVER_loop_entry(state.m_u.ver) && state.m_v.ver == __CPROVER_loop_entry(state.m_v.ver) \
+  && state.m_status == __CPROVER_loop_entry(state.m_status) && state.m_iters == __CPROVER_loop_entry(state.m_iters))
 #define NV_LOOP_solve_with_inequality_1 \
 __CPROVER_assigns(state, dx, du, dv, program->buf, nv_strict, nv_grp, nv_n_solve, nv_n_update) \
 __CPROVER_loop_invariant(0 <= state.m_iters && state.m_iters <= max_iters && state.m_status == NVE_solver_status_max_iters) \
-__CPROVER_loop_invariant(state.m_x.ver == x0->ver || (NV_ADVANCED(state, program) && nv_grp.d0 == dx.ver && nv_grp.d1 == du.ver && nv_grp.d2 == dv.ver)) \
 __CPROVER_decreases(max_iters - state.m_iters)
 #define NV_LOOP_solve_with_inequality_2 \
 __CPROVER_assigns(iter, s, nv_strict) \
@@ -350,9 +353,23 @@ __CPROVER_loop_invariant(0 <= iter && iter <= max_lsearch_iters) \
 __CPROVER_decreases(max_lsearch_iters - iter)
 #define NV_LOOP_solve_with_inequality_3 \
 __CPROVER_assigns(iter, s, state, nv_n_update) \
+__CPROVER_loop_invariant(0 <= iter && iter <= max_lsearch_iters) \
+NV_SWI_LOOP3_FRAME \
+__CPROVER_decreases(max_lsearch_iters - iter)
+
+/* the returned point is x0 or was reached by advances that each passed the strict-feasibility test */
+#define NV_CONTRACT_solve_with_inequality_adv NV_SWI_REQUIRES_ASSIGNS \
+__CPROVER_ensures(NV_R.m_x.ver == x0->ver || NV_ADVANCED(NV_R, program))
+#define NV_LOOP_solve_with_inequality_adv_1 \
+__CPROVER_assigns(state, dx, du, dv, program->buf, nv_strict, nv_grp, nv_n_solve, nv_n_update) \
+__CPROVER_loop_invariant(0 <= state.m_iters && state.m_iters <= max_iters) \
+__CPROVER_loop_invariant(state.m_x.ver == x0->ver || (NV_ADVANCED(state, program) && nv_grp.d0 == dx.ver && nv_grp.d1 == du.ver && nv_grp.d2 == dv.ver)) \
+__CPROVER_decreases(max_iters - state.m_iters)
+#define NV_LOOP_solve_with_inequality_adv_2 NV_LOOP_solve_with_inequality_2
+#define NV_LOOP_solve_with_inequality_adv_3 \
+__CPROVER_assigns(iter, s, state, nv_n_update) \
 __CPROVER_loop_invariant(0 <= iter && iter <= max_lsearch_iters && NV_BETWEEN0(s, nv_strict.step)) \
-__CPROVER_loop_invariant(state.m_x.ver == __CPROVER_loop_entry(state.m_x.ver) && state.m_u.ver == __CPROVER_loop_entry(state.m_u.ver) && state.m_v.ver == __CPROVER_loop_entry(state.m_v.ver) \
-  && state.m_status == __CPROVER_loop_entry(state.m_status) && state.m_iters == __CPROVER_loop_entry(state.m_iters)) \
+NV_SWI_LOOP3_FRAME \
 __CPROVER_decreases(max_lsearch_iters - iter)
 
 #endif
